@@ -228,7 +228,7 @@ where
         Ok(()) => {}
         Err(TestError::Fail(reason, case)) => {
             let reason = reason.message().to_string();
-            if reason.starts_with("HARNESS-PANIC") {
+            if reason.starts_with("HARNESS") {
                 report.inconclusive = Some(format!(
                     "{reason}; case={}",
                     serde_json::to_string(&case).unwrap_or_default()
@@ -256,6 +256,10 @@ where
     for case in iter {
         match panics::catch(|| f(&case)) {
             Ok(Ok(info)) => report.record(&case, &info),
+            Ok(Err(reason)) if reason.starts_with("HARNESS") => {
+                report.inconclusive = Some(format!("{reason}; case={}", serde_json::to_string(&case).unwrap_or_default()));
+                break;
+            }
             Ok(Err(reason)) => {
                 report.fail(&case, reason);
                 break;
